@@ -275,9 +275,10 @@ def instances(draw, tier):
     fam = draw(st.sampled_from(["dag", "cyc", "dag"]))
     case = draw(gen.model_cases(classes=["kLeastAbsErrors" if fam == "dag" else "kLeastAbsErrorsCycles"], max_nodes=5, p_node=0, p_se=0, p_ignore=2, p_constr=2, noise=False, weight_types=("int",)))
     kw = case["kw"]
-    flags = gen.DAG_FLAGS + gen.DAG_FD_FLAGS if fam == "dag" else gen.WALK_FLAGS
+    # flags of every class that may receive the shared dict (classes ignore the flags they do not know)
+    flags = (gen.DAG_FLAGS + gen.DAG_FD_FLAGS + gen.MFD_FLAGS) if fam == "dag" else (gen.WALK_FLAGS + gen.MFDC_FLAGS)
     opts = {}
-    for f in draw(st.lists(st.sampled_from(flags), max_size=2, unique=True)):
+    for f in draw(st.lists(st.sampled_from(flags), max_size=3, unique=True)):
         opts[f] = draw(st.booleans())
     if opts.get("optimize_with_safe_paths") and opts.get("optimize_with_safe_sequences"):
         opts.pop("optimize_with_safe_sequences")
